@@ -854,5 +854,17 @@ m('readrows-heartbeat-without-reset','C03',BT,
 				return true
 			}
 ''','R81/','rows already sent are sent again with the next batch')
+# ---- C13 / R82: the value bytes of an existing cell are never written
+m('rmw-increment-encodes-into-previous-cell','C13',BT,
+  '''			v += rule.IncrementAmount
+			var val [8]byte
+			binary.BigEndian.PutUint64(val[:], uint64(v))
+			newCell = &btpb.Cell{TimestampMicros: ts, Value: val[:]}''','''			v += rule.IncrementAmount
+			val := prevVal
+			if val == nil {
+				val = make([]byte, 8)
+			}
+			binary.BigEndian.PutUint64(val, uint64(v))
+			newCell = &btpb.Cell{TimestampMicros: ts, Value: val}''','R82/','the previous version is rewritten with the new sum')
 json.dump(M, open('/verif/mutants.json','w'), indent=1)
 print(len(M),'mutants')
